@@ -224,6 +224,8 @@ def run_case(idx, rng, P, rep):
         go = param.Event(default=True)                  # (an Event may be declared 'set'; it falls back to False when assigned)
         cgo = param.Event(default=True, constant=True)
         xy = param.Composite(attribs=['x', 'y'])       # assigning it assigns x and y
+        cnt = param.Integer(default=2)                  # (refuses 2.0, which compares equal to its default)
+        flag = param.Boolean(default=False)             # (refuses 0, which compares equal to its default)
         x = param.Number(default=1.0, bounds=(0, 10), allow_refs=True)
         y = param.Number(default=1.5, bounds=(0, 10), inclusive_bounds=(True, False), allow_refs=True)
         s = param.String(default='a', regex='^a', allow_refs=True)
@@ -238,6 +240,10 @@ def run_case(idx, rng, P, rep):
 
     class SubTgt(Tgt):
         pass
+
+    class NarrowTgt(Tgt):
+        # (a subclass that inherits the Composite and narrows one of its constituents)
+        y = param.Number(default=1.5, bounds=(0, 5), allow_refs=True)
 
     Src.__name__ = f'Src{idx}'
     Tgt.__name__ = f'Tgt{idx}'
@@ -323,11 +329,12 @@ def run_case(idx, rng, P, rep):
                        'unchecked-selector'])
     route = rng.choice(['inst', 'inst', 'update1', 'updateN', 'class'])
     if kind == 'plain-invalid':
-        tp = rng.choice(['x', 'y', 's', 'sel', 'nanp', 'ev', 'go', 'xy'])
+        tp = rng.choice(['x', 'y', 's', 'sel', 'nanp', 'ev', 'go', 'xy', 'cnt', 'flag'])
         # (a complex number is a number: comparing it with the bounds is what fails, with a TypeError)
         bad = {'x': rng.choice([99, -1, 'str', float('nan'), 1 + 2j]), 'y': rng.choice([10, 'str', 2j]), 's': rng.choice(['zzz', 5]),
                'sel': 'outsider', 'nanp': rng.choice(['str', [1]]), 'ev': rng.choice([3, 'odd', 7]), 'go': rng.choice(['yes', 5, None]),
-               'xy': rng.choice([[5.0, 99], [99, 5.0], [6.0, 10], [1.0, 2.0, 3.0], [7.0, 'str']])}[tp]
+               'xy': rng.choice([[5.0, 99], [99, 5.0], [6.0, 10], [1.0, 2.0, 3.0], [7.0, 'str']]),
+               'cnt': rng.choice([2.0, 2.0, 'x', 2.5]), 'flag': rng.choice([0, 0, 'no', 1])}[tp]
     elif kind == 'ref-invalid':
         tp = rng.choice(['x', 'y', 's'])
         src = rng.choice([s1, s2])
@@ -372,6 +379,8 @@ def run_case(idx, rng, P, rep):
         bad = 7
     if route == 'class' and kind not in ('plain-invalid', 'readonly', 'unchecked-selector'):
         route = 'inst'
+    if kind == 'plain-invalid' and tp == 'xy' and rng.random() < 0.5:
+        route = 'class'
 
     def snapshot():
         snap = {}
@@ -381,7 +390,7 @@ def run_case(idx, rng, P, rep):
                 snap[('val', k, p)] = id(getattr(o, p)) if p != 'xy' else tuple(id(v_) for v_ in getattr(o, p))
             ws = o.param.watchers
             snap[('watchers', k)] = tuple(sorted((p, what, tuple(id(w) for w in lst)) for p, d in ws.items() for what, lst in d.items()))
-        for p in ('x', 'y', 's', 'sel', 'c', 'r', 'plain', 'csel', 'rsel', 'nanp', 'ev', 'go', 'cgo'):
+        for p in ('x', 'y', 's', 'sel', 'c', 'r', 'plain', 'csel', 'rsel', 'nanp', 'ev', 'go', 'cgo', 'cnt', 'flag'):
             snap[('clsval', p)] = id(getattr(Tgt, p))
             snap[('clsflags', p)] = (Tgt.param[p].constant, Tgt.param[p].readonly)
         return snap
@@ -397,6 +406,10 @@ def run_case(idx, rng, P, rep):
         elif route == 'class':
             # on the declaring class, or on a subclass that merely inherits the parameter
             cls_target = SubTgt if rng.random() < 0.5 else Tgt
+            if tp == 'xy' and rng.random() < 0.5:
+                # through a subclass whose own y is narrower than the y of the class that declares the Composite
+                cls_target, bad = NarrowTgt, [4.0, 7.0]
+                rep.count('composite_through_narrowing_subclass')
             setattr(cls_target, tp, bad)
         elif route == 'update1':
             t.param.update(**{tp: bad})
@@ -437,17 +450,22 @@ def run_case(idx, rng, P, rep):
     if len(cls_log) != n_cls:
         viol('watcher-invoked', f'a class-level watcher was invoked during the rejected attempt: {cls_log[n_cls:]}')
     # ---- a subclass that never got a value of its own keeps following its parent class, as before the attempt
-    if route == 'class' and tp in ('x', 'y', 's', 'sel', 'nanp', 'ev'):
+    if route == 'class' and tp in ('x', 'y', 's', 'sel', 'nanp', 'ev', 'cnt', 'flag', 'xy'):
         rep.count('class_route_follow_probes')
-        probe_v = {'x': 6.5, 'y': 7.5, 's': 'afollow', 'sel': 'w', 'nanp': 8.5, 'ev': 8}[tp]
-        was = getattr(Tgt, tp)
+        ptp = 'x' if tp == 'xy' else tp          # (a refused Composite assignment: its first constituent)
+        probe_v = {'x': 6.5, 'y': 7.5, 's': 'afollow', 'sel': 'w', 'nanp': 8.5, 'ev': 8, 'cnt': 9, 'flag': True}[ptp]
+        was = getattr(Tgt, ptp)
         try:
-            setattr(Tgt, tp, probe_v)
-            if getattr(SubTgt, tp) != probe_v:
-                viol('subclass-stopped-following-parent', f'after the rejected {cls_target.__name__}.{tp} = {bad!r}: Tgt.{tp} = {probe_v!r} but '
-                     f'SubTgt.{tp} is {getattr(SubTgt, tp)!r} (SubTgt never had a value of its own)')
+            setattr(Tgt, ptp, probe_v)
+            for Follower in (SubTgt, NarrowTgt):
+                if Follower is NarrowTgt and ptp == 'y':
+                    continue        # (its own declaration)
+                if getattr(Follower, ptp) != probe_v:
+                    viol('subclass-stopped-following-parent', f'after the rejected {cls_target.__name__}.{tp} = {bad!r}: Tgt.{ptp} = {probe_v!r} '
+                         f'but {Follower.__name__.rstrip("0123456789")}.{ptp} is {getattr(Follower, ptp)!r} (it never had a value of its own)')
+                    break
         finally:
-            setattr(Tgt, tp, was)
+            setattr(Tgt, ptp, was)
     # ---- behavioural link probe: exactly the pre-attempt links follow their sources
     for k in applied_before_bad:
         links.pop(k, None)
